@@ -273,13 +273,22 @@ class SetIterModel:
     def finish(self, vc, ghost):
         vc.assume(ghost['done'] == self.s)
 
+    def some_element(self, vc, ghost):
+        x = vc.fresh_key('last')
+        vc.assume(self.s.has(x))
+        return x
+
+    def assume_empty(self, vc):
+        vc.assume(self.s == SSet.empty())
+
 
 class ElemsIterModel:
     """for x in L, L an abstract list described by the set of its elements: elements come in any order, possibly
     repeated, and all of them are visited.  ghost `done` = elements visited so far."""
 
-    def __init__(self, s):
+    def __init__(self, s, distinct=None):
         self.s = s
+        self.distinct = distinct        # optional SBool ghost of the list: no element occurs twice
 
     def start(self, vc):
         return {'done': SSet.empty(), 'all': self.s}
@@ -292,10 +301,20 @@ class ElemsIterModel:
     def step(self, vc, ghost):
         x = vc.fresh_key('x')
         vc.assume(self.s.has(x))
+        if self.distinct is not None:
+            vc.assume(implies(SBool.of(self.distinct), b_not(ghost['done'].has(x))))
         return x, {'done': ghost['done'].add(x), 'all': self.s}
 
     def finish(self, vc, ghost):
         vc.assume(ghost['done'] == self.s)
+
+    def some_element(self, vc, ghost):
+        x = vc.fresh_key('last')
+        vc.assume(self.s.has(x))
+        return x
+
+    def assume_empty(self, vc):
+        vc.assume(self.s == SSet.empty())
 
 
 class AbsSeq:
@@ -562,6 +581,9 @@ def _list_append(I, l, x):
     if 'joined' in g:
         g['joined'] = _cat(SBytes, g['joined'], x)
     if 'elems' in g:
+        if 'distinct' in g:
+            # ghost: "no element occurs twice" stays true only if the new element was not in the list
+            g['distinct'] = b_and(SBool.of(g['distinct']), b_not(g['elems'].has(x)))
         g['elems'] = g['elems'].add(x)
     if 'n' in g:
         g['n'] = SInt.of(g['n']) + 1
